@@ -2,6 +2,7 @@ import Driver.Json
 import Model.Pass.Synth
 import Model.Lib.Ops
 import Model.Lib.Barrel
+import Model.Lib.Adders
 /-! `basic` command: the Lean models of the bit-level generators on concrete operands. -/
 open Lean
 namespace Pyrtl.Drv
@@ -59,5 +60,30 @@ def cmdOps (j : Lean.Json) : Except String Lean.Json := do
   let outs ← cases.mapM fun (a, b) => f (wa, a) (wb, b)
   return Lean.Json.mkObj [("ok", .bool true), ("width", natJson ((outs.headD (0, 0)).1)),
                           ("vals", .arr (outs.map fun o => natJson o.2).toArray)]
+
+end Pyrtl.Drv
+
+namespace Pyrtl.Drv
+open Pyrtl.Adders
+
+/-- `adder` command: Lean bit-list models of rtllib adders. -/
+def cmdAdder (j : Lean.Json) : Except String Lean.Json := do
+  let fn ← jStr (← field j "fn")
+  let widths ← jNatList (← field j "widths")
+  let params := fieldD j "params" (Lean.Json.mkObj [])
+  let ul ← jNat (fieldD params "la_unit_len" (natJson 4))
+  let cases ← (← jArr (← field j "cases")).toList.mapM jNatList
+  let bitsOf (w v : Nat) : List Bool := Pyrtl.Synth.ofNat w v
+  let outs ← cases.mapM fun c => do
+    let a := bitsOf (widths.getD 0 0) (c.getD 0 0)
+    let b := bitsOf (widths.getD 1 0) (c.getD 1 0)
+    let cin := (c.getD 2 0) % 2 == 1
+    match fn with
+    | "kogge_stone" => pure (koggeStone a b cin)
+    | "ripple_add" => pure (rippleAdd a b cin)
+    | "cla_adder" => pure (claAdder a b cin ul)
+    | _ => throw s!"unknown adder {fn}"
+  return Lean.Json.mkObj [("ok", .bool true), ("width", natJson ((outs.headD []).length)),
+                          ("vals", .arr (outs.map fun o => natJson (Pyrtl.Synth.toNat o)).toArray)]
 
 end Pyrtl.Drv
